@@ -104,6 +104,7 @@ def generate(seed, tier='quick'):
     plan['clients'] = []
     plan['schedule'] = []
     plan['late_enter'] = r.choice((None, None, 'in-order', 'reversed'))
+    plan['restart_via'] = r.choice(('fp', 'fp', 'reuse', 'reuse-decoy'))
     if not files:
         return plan
     single = r.random() < 0.3
@@ -186,7 +187,7 @@ def execute(plan):
             for i, op in enumerate(plan['ops'] + [None]):
                 if ra is not None and i == ra:
                     try:
-                        d.restart()
+                        d.restart(plan.get('restart_via', 'fp'))
                         d.model.apply({'op': 'restart'})
                     except Exception as e:
                         ctx.status = 'inconclusive'
